@@ -469,12 +469,19 @@ func sortedKeys(m map[string]int) []string {
 	return ks
 }
 
+var dumpSeq int
+
 // secondOpinion re-asks a query (path condition plus extra) of another solver from scratch.
 func (r *run) secondOpinion(extra []*smt.Term) smt.Result {
 	if len(r.eng.SecondSolverArgv) == 0 {
 		return smt.Unknown
 	}
-	s2, err := smt.NewSolver(r.ctx, "second", r.eng.SecondSolverArgv, r.eng.SolverTimeoutMs*3, "")
+	logp := ""
+	if r.eng.LogDir != "" {
+		dumpSeq++
+		logp = fmt.Sprintf("%s/second-%d.smt2", r.eng.LogDir, dumpSeq)
+	}
+	s2, err := smt.NewSolver(r.ctx, "second", r.eng.SecondSolverArgv, r.eng.SolverTimeoutMs*3, logp)
 	if err != nil {
 		return smt.Unknown
 	}
